@@ -346,3 +346,80 @@ func (c *Check) Get(k string) interface{} {
 	defer c.mu.Unlock()
 	return c.extra[k]
 }
+
+// Exported is the state of a Check that a helper process hands back to its
+// parent (Export in the child, Merge in the parent).
+type Exported struct {
+	Evaluations, States, Transitions, Traces int64
+	Distinct                                 []string
+	Samples                                  []interface{}
+	Violations                               []string
+	NViol                                    int
+	Extra                                    map[string]interface{}
+	AddKeys                                  []string // keys of Extra that are counters (merged by addition)
+	NotExhaustive                            bool
+	Assume                                   []string
+}
+
+// Export snapshots the check (counters added with Add are listed in AddKeys).
+func (c *Check) Export() Exported {
+	c.mu.Lock()
+	defer c.mu.Unlock()
+	e := Exported{Evaluations: c.Evaluations.Load(), States: c.States.Load(), Transitions: c.Transitions.Load(), Traces: c.Traces.Load(),
+		Samples: c.samples, Violations: c.violations, NViol: c.nviol, Extra: map[string]interface{}{}, NotExhaustive: !c.Exhaustive, Assume: c.assume}
+	for k := range c.distinct {
+		e.Distinct = append(e.Distinct, k)
+	}
+	for k, v := range c.extra {
+		e.Extra[k] = v
+		if _, isCounter := v.(int64); isCounter {
+			e.AddKeys = append(e.AddKeys, k)
+		}
+	}
+	return e
+}
+
+// Merge folds what a helper process exported into this check.
+func (c *Check) Merge(e Exported) {
+	c.Evaluations.Add(e.Evaluations)
+	c.States.Add(e.States)
+	c.Transitions.Add(e.Transitions)
+	c.Traces.Add(e.Traces)
+	c.mu.Lock()
+	defer c.mu.Unlock()
+	for _, k := range e.Distinct {
+		c.distinct[k] = struct{}{}
+	}
+	for _, s := range e.Samples {
+		if len(c.samples) < 8 {
+			c.samples = append(c.samples, s)
+		}
+	}
+	c.nviol += e.NViol
+	for _, v := range e.Violations {
+		if len(c.violations) < 5 {
+			c.violations = append(c.violations, v)
+		}
+	}
+	counter := map[string]bool{}
+	for _, k := range e.AddKeys {
+		counter[k] = true
+	}
+	for k, v := range e.Extra {
+		if counter[k] {
+			old, _ := c.extra[k].(int64)
+			switch n := v.(type) {
+			case float64: // through JSON
+				c.extra[k] = old + int64(n)
+			case int64:
+				c.extra[k] = old + n
+			}
+			continue
+		}
+		c.extra[k] = v
+	}
+	if e.NotExhaustive {
+		c.Exhaustive = false
+	}
+	c.assume = append(c.assume, e.Assume...)
+}
